@@ -195,6 +195,9 @@ type C07Case struct {
 	// Bystander: id of a converter that takes the name explicitly but makes a
 	// type nobody needs (0 = none)
 	Bystander int `json:"bystander,omitempty"`
+	// Producer: id of a converter that could produce another value under the
+	// label of the supplied same-named value (0 = none)
+	Producer int `json:"producer,omitempty"`
 }
 
 // traceToInput follows a value back through single-input converter
@@ -238,6 +241,9 @@ func evalC07(c *engine.Case) engine.Verdict {
 	v.Class(fmt.Sprintf("shape=%d", x.Shape))
 	if x.Bystander != 0 {
 		v.Class("bystander-converter-takes-the-name")
+	}
+	if x.Producer != 0 {
+		v.Class("producer-of-the-supplied-label")
 	}
 	for _, in := range sc.Inputs {
 		if in.Tok == x.NameInput && in.L.Sub != "" {
@@ -427,10 +433,57 @@ func genC07(g engine.G) *engine.Case {
 			}
 		}
 	}
+	var producerExtra *engine.Label
+	if x.Shape != 2 && g.Pct(35) {
+		// a PRODUCER of the same label the caller supplies (n:T0): a converter
+		// that could make another value named n of the source type out of
+		// something else. The supplied value is there, nothing has to be
+		// produced -- and whatever that converter returns, the value the caller
+		// supplied under the parameter's name is the one to convert.
+		var z, w2 int = -1, -1
+		for _, t := range rapidPerm(g, types) {
+			used := false
+			for _, c := range chain {
+				used = used || c == t
+			}
+			if !used && z < 0 {
+				z = t
+			} else if !used && w2 < 0 {
+				w2 = t
+			}
+		}
+		if z >= 0 {
+			id++
+			p := engine.FuncSpec{ID: id, InForm: engine.Pick(g, []string{engine.FormStruct, engine.FormPtr}), OutForm: engine.Pick(g, []string{engine.FormStruct, engine.FormPtr}),
+				Out: []engine.Label{{Name: n, Type: t0, Sub: nameSub, Dyn: t0}}, HasErr: g.Bool()}
+			if nameSub == "" && g.Bool() {
+				// it takes the parameter's name too, under another type
+				// (supplied with a subtype label): a free detour thanks to
+				// the same-name discount
+				p.In = []engine.Label{{Name: n, Type: z, Dyn: z}}
+				add(engine.Label{Name: n, Type: z, Sub: engine.Pick(g, engine.AllSubs)})
+			} else {
+				p.In = []engine.Label{{Type: z, Dyn: z}}
+				p.InForm = typedForm()
+				add(engine.Label{Type: z})
+			}
+			if w2 >= 0 && g.Bool() {
+				// ... and it is NEEDED for a second result the target asks for
+				extra := engine.Label{Name: "zz", Type: w2, Dyn: w2}
+				p.Out = append(p.Out, extra)
+				producerExtra = &extra
+			}
+			convs = append(convs, p)
+			x.Producer = id
+		}
+	}
 	sc.Convs = rapidPerm(g, convs)
 	sc.Target = engine.FuncSpec{ID: engine.TargetID, In: []engine.Label{{Name: n, Type: t1, Dyn: t1}}, InForm: engine.Pick(g, []string{engine.FormStruct, engine.FormPtr}), OutForm: engine.FormPos}
 	for _, o := range extraParams {
 		sc.Target.In = append(sc.Target.In, engine.Label{Name: o, Type: t1, Dyn: t1})
+	}
+	if producerExtra != nil {
+		sc.Target.In = append(sc.Target.In, *producerExtra)
 	}
 	sc.Target.In = rapidPerm(g, sc.Target.In)
 	c := &engine.Case{Sc: sc, Reps: 5}
